@@ -51,7 +51,7 @@ cfg("MC_t_ep.cfg", "thorough: 2 classes x <=3 records x counts 1..2 x endpoints 
     UnitSeq="U2", MaxRecs=3, MaxCount=2, EpVals="EpGrp", ExportMode='"focus"', SampleMod=99991, NearMod=29)
 cfg("MC_t_grp2.cfg", "thorough: <=2 groups over 2 names, 2 classes, <=2 records/group, counts 1..2",
     UnitSeq="U2", GroupNames='{"g1","g2"}', MaxGroups=2, MaxRecs=2, MaxCount=2, ExportMode='"focus"', SampleMod=9973)
-cfg("MC_t_grp3.cfg", "thorough: <=3 groups over 3 names, 2 classes, <=1 record/group, counts 1..2, endpoints {00,10,01}",
-    UnitSeq="U2", GroupNames='{"g1","g2","g3"}', MaxGroups=3, MaxRecs=1, MaxCount=2, EpVals="EpGrp")
+cfg("MC_t_grp3.cfg", "thorough: <=3 groups over 3 names, 2 classes, <=1 record/group, count 1, no endpoints",
+    UnitSeq="U2", GroupNames='{"g1","g2","g3"}', MaxGroups=3, MaxRecs=1, MaxCount=1, ExportMode='"focus"', SampleMod=997)
 cfg("MC_t_zero.cfg", "thorough: manifest count 0 allowed, 3 classes x <=3 records x counts ..3",
     MaxRecs=3, MaxCount=3, MCountMin=0)
